@@ -387,6 +387,28 @@ def standin_predicates(tier, seed):
                 want = Z @ cirq.unitary(g) @ Z.conj().T
                 if not cirq.allclose_up_to_global_phase(cirq.unitary(ph), want, atol=1e-7):
                     bad("phase_by is not conjugation by the Z rotation (up to global phase)", gate=g, qubit_index=qi, turns=turns)
+    # equality predicates across systems and vendor gates: equal / approximately equal values act on the same system with the same matrix
+    extra = [cirq.MatrixGate(np.eye(4), qid_shape=(4,)), cirq.MatrixGate(np.eye(4)), cirq.MatrixGate(np.eye(4), qid_shape=(2, 2)), cirq.MatrixGate(np.eye(6), qid_shape=(2, 3)), cirq.MatrixGate(np.eye(6), qid_shape=(3, 2)),
+             cirq.IdentityGate(2), cirq.IdentityGate(qid_shape=(4,))]
+    try:
+        import cirq_ionq
+        extra += [cirq_ionq.MSGate(phi0=0.1, phi1=0.2, theta=0.1), cirq_ionq.MSGate(phi0=0.1, phi1=0.2, theta=0.25), cirq_ionq.MSGate(phi0=0.1, phi1=0.2), cirq_ionq.GPIGate(phi=0.1), cirq_ionq.GPIGate(phi=1.1),
+                  cirq_ionq.GPI2Gate(phi=0.1), cirq_ionq.ZZGate(theta=0.1), cirq_ionq.ZZGate(theta=0.6)]
+    except ImportError:
+        pass
+    for g1, g2 in itertools.product(extra, repeat=2):
+        cases += 1
+        same_system = cirq.qid_shape(g1) == cirq.qid_shape(g2)
+        same_matrix = same_system and np.allclose(cirq.unitary(g1), cirq.unitary(g2), atol=1e-8)
+        try:
+            if g1 == g2 and not same_matrix:
+                bad("== is True for gates with different matrices or different qid shapes", a=g1, b=g2)
+            if g1 == g2 and hash(g1) != hash(g2):
+                bad("equal gates with different hashes", a=g1, b=g2)
+            if cirq.approx_eq(g1, g2, atol=1e-9) and not same_matrix:
+                bad("approx_eq is True for gates with different matrices or different qid shapes", a=g1, b=g2)
+        except (TypeError, ValueError):
+            pass
     # phase_by on matrix gates over MIXED qid shapes: conjugation by the Z rotation on the chosen qubit, identity on every other qid whatever its dimension
     for shape in ((2,), (2, 2), (2, 3), (3, 2), (2, 4), (4, 2), (3, 2, 3), (2, 3, 2), (2, 2, 2), (2, 2, 3)):
         dim = int(np.prod(shape))
